@@ -11,6 +11,7 @@ Reading of the objects: a point is a `List ℚ`, its `j`-th coordinate is `p.get
 import DeapModel.Lemmas.C15Wrap
 import DeapModel.Lemmas.C15Measure
 import DeapModel.Lemmas.C15Sweep2d
+import DeapModel.Lemmas.C15Sweep3d
 
 namespace C15
 open Hypervolume MeasureTheory
@@ -242,9 +243,11 @@ example : ([[1, 2], [2, 1]] : List (List ℚ)) ≠ [] ∧ ∀ v ∈ ([[1, 2], [2
 `hvRecursive` (base cases `dimIndex == 0`, `== 1`, general case with bounds pruning, `ignore` marking,
 `remove` / `reinsert`) exactly as pyhv.py does; the correspondence run diffs it against pyhv's value AND
 observable final state on every hypervolume case.  Proved here: it terminates in every dimension and hands
-the lists back intact; it computes the specification for `d ≤ 2`; and the specification of its recursive
-step (slab decomposition) in every dimension.  Open: that the general case with its caches implements that
-step for `d ≥ 3` (`sweep_eq_hvCells_Statement`). -/
+the lists back intact; it computes the specification for `d ≤ 3` (for `d = 3` through the general case:
+remove all but one node, reinsert in the order of the last coordinate, staircase of the nodes present, slab
+sum); and the specification of its recursive step (slab decomposition, along the leading and along the last
+coordinate) in every dimension.  Open: that the general case implements that step when it REUSES cached areas /
+volumes below `bounds` and skips `ignore`d nodes, which only happens for `d ≥ 4` (`sweep_eq_hvCells_Statement`). -/
 
 open HvSweep in
 /-- **Termination in every dimension**: with the fuel `n + 1` that `compute` supplies, no pointer-following
@@ -327,17 +330,61 @@ example : ([[1, 2, 0], [2, 0, 1]] : List Pt).Pairwise (fun a b => a.headD 0 ≤ 
   simp only [List.mem_cons, List.not_mem_nil, or_false] at hs
   rcases hs with rfl | rfl <;> norm_num
 
+/-- **Coordinate symmetry**: moving the leading coordinate to the end does not change the hypervolume (so the
+choice of the swept coordinate is immaterial; the implementations sweep on the last one). -/
+theorem hvCells_coordinate_symmetry (r : ℚ) (ref : List ℚ) (S : List Pt) (hl : ∀ p ∈ S, p.length = ref.length + 1) :
+    hvCells (ref ++ [r]) (S.map rot) = hvCells (r :: ref) S :=
+  hvCells_rot r ref S hl
+
+example : ∀ p ∈ ([[1, 2, 0], [2, 0, 1]] : List Pt), p.length = ([3, 3] : List ℚ).length + 1 := by
+  intro p hp
+  simp only [List.mem_cons, List.not_mem_nil, or_false] at hp
+  rcases hp with rfl | rfl <;> rfl
+
+/-- **The recursive step along the LAST coordinate** — exactly what the general case of the sweep adds when it
+reinserts the node with the next larger last coordinate. -/
+theorem hv_slab_step_last (r : ℚ) (ref : List ℚ) (P : List Pt) (p : Pt)
+    (hl : ∀ s ∈ p :: P, s.length = ref.length + 1)
+    (hz : ∀ s ∈ P, s.getLastD 0 ≤ p.getLastD 0) (hr : p.getLastD 0 ≤ r) :
+    hvCells (ref ++ [r]) (p :: P) = hvCells (ref ++ [r]) P
+      + (r - p.getLastD 0) * (hvCells ref ((p :: P).map List.dropLast) - hvCells ref (P.map List.dropLast)) :=
+  hvCells_add_top_slab_last r ref P p hl hz hr
+
+example : (∀ s ∈ ([2, 0, 2] : Pt) :: ([[1, 2, 1]] : List Pt), s.length = ([3, 3] : List ℚ).length + 1) ∧
+    (∀ s ∈ ([[1, 2, 1]] : List Pt), s.getLastD 0 ≤ ([2, 0, 2] : Pt).getLastD 0) ∧ ([2, 0, 2] : Pt).getLastD 0 ≤ (3 : ℚ) := by
+  refine ⟨?_, ?_, by norm_num⟩
+  · intro s hs
+    simp only [List.mem_cons, List.not_mem_nil, or_false] at hs
+    rcases hs with rfl | rfl <;> rfl
+  · intro s hs
+    simp only [List.mem_singleton] at hs
+    rw [hs]; norm_num
+
+open HvSweep in
+/-- **`sweep_3d`**: in three dimensions the transcribed algorithm — `preProcess`, then the GENERAL case of
+`hvRecursive` at `dimIndex = 2` (reset of the ignore flags, removal of all nodes but the first from the lists
+0 and 1, reinsertion in the order of the third coordinate, the 2-D staircase on the nodes present after each
+reinsertion, `hvol += area × thickness`) — returns the specification. -/
+theorem sweep_3d (r₀ r₁ r₂ : ℚ) (pts : List (ℚ × ℚ × ℚ)) (hle : ∀ p ∈ pts, p.1 ≤ r₀ ∧ p.2.1 ≤ r₁ ∧ p.2.2 ≤ r₂) :
+    compute (pts.map toPt3) [r₀, r₁, r₂] = some (hvCells [r₀, r₁, r₂] (pts.map toPt3)) :=
+  sweep_3d' r₀ r₁ r₂ pts hle
+
+example : ∀ p ∈ ([(1, 2, 0), (2, 0, 1), (0, 1, 3)] : List (ℚ × ℚ × ℚ)), p.1 ≤ (3 : ℚ) ∧ p.2.1 ≤ (3 : ℚ) ∧ p.2.2 ≤ (3 : ℚ) := by
+  intro p hp
+  simp only [List.mem_cons, List.not_mem_nil, or_false] at hp
+  rcases hp with rfl | rfl | rfl <;> norm_num
+
 /-- The full correctness statement of the transcribed algorithm: for every dimension `d ≥ 1`, every list of
-points of that dimension at or below the reference, it returns the specification.  NOT proved for `d ≥ 3`
-(the area / volume caches, bounds pruning and `ignore` marks of the general case are only validated by the
-correspondence run); nothing below depends on it. -/
+points of that dimension at or below the reference, it returns the specification.  NOT proved for `d ≥ 4`
+(there a level is entered several times, and the reuse of cached areas / volumes below `bounds` and the skipping
+of `ignore`d nodes are only validated by the correspondence run); nothing below depends on it. -/
 def sweep_eq_hvCells_Statement : Prop :=
   ∀ (ref : List ℚ) (front : List (List ℚ)), 1 ≤ ref.length → (∀ p ∈ front, p.length = ref.length) →
     (∀ p ∈ front, ∀ j < ref.length, p.getD j 0 ≤ ref.getD j 0) →
     HvSweep.compute front ref = some (hvCells ref front)
 
-/-- the proved part: dimensions 1 and 2 (extra hypothesis `ref.length ≤ 2`) -/
-theorem sweep_eq_hvCells_partial (ref : List ℚ) (front : List (List ℚ)) (hd : 1 ≤ ref.length) (hd2 : ref.length ≤ 2)
+/-- the proved part: dimensions 1, 2 and 3 (extra hypothesis `ref.length ≤ 3`) -/
+theorem sweep_eq_hvCells_partial (ref : List ℚ) (front : List (List ℚ)) (hd : 1 ≤ ref.length) (hd2 : ref.length ≤ 3)
     (hlen : ∀ p ∈ front, p.length = ref.length)
     (hle : ∀ p ∈ front, ∀ j < ref.length, p.getD j 0 ≤ ref.getD j 0) :
     HvSweep.compute front ref = some (hvCells ref front) := by
@@ -367,8 +414,20 @@ theorem sweep_eq_hvCells_partial (ref : List ℚ) (front : List (List ℚ)) (hd 
     intro q hq
     obtain ⟨p, hp, rfl⟩ := List.mem_map.mp hq
     exact ⟨by simpa using hle p hp 0 (by simp), by simpa using hle p hp 1 (by simp)⟩
+  | [r₀, r₁, r₂], _, _ =>
+    have hfront : front = (front.map (fun p => (p.getD 0 0, p.getD 1 0, p.getD 2 0))).map HvSweep.toPt3 := by
+      rw [List.map_map]
+      conv_lhs => rw [← List.map_id front]
+      apply List.map_congr_left
+      intro p hp
+      exact HvSweep.list_len3 p (hlen p hp)
+    rw [hfront]
+    apply sweep_3d
+    intro q hq
+    obtain ⟨p, hp, rfl⟩ := List.mem_map.mp hq
+    exact ⟨by simpa using hle p hp 0 (by simp), by simpa using hle p hp 1 (by simp), by simpa using hle p hp 2 (by simp)⟩
 
-example : 1 ≤ ([3, 3] : List ℚ).length ∧ ([3, 3] : List ℚ).length ≤ 2 ∧
+example : 1 ≤ ([3, 3] : List ℚ).length ∧ ([3, 3] : List ℚ).length ≤ 3 ∧
     (∀ p ∈ ([[1, 2], [2, 1]] : List (List ℚ)), p.length = ([3, 3] : List ℚ).length) := by
   refine ⟨by simp, by simp, ?_⟩
   intro p hp
